@@ -137,8 +137,10 @@ NextN == \E tag \in Tags :
                 /\ LET a == CntIDs("a1", k, tag) IN Emit("N", ActSeqIn("bucket", "m", <<a, LeafAct("a2", "group", tag)>>, tag), <<a>>)
 \* top-down construction: a container is attached first and grows afterwards (framing and repeatability are still required;
 \* the eager length bookkeeping of some adders makes nested lengths stale, so only C01 / C13 are judged on this family)
-EmitTD(top) == PrintT(ToJson([k |-> "build", fam |-> "T", nospec |-> TRUE, top |-> top.n, ops |-> top.ops, observe |-> Obs4(top.n) \o Obs4(top.n),
-                              kids |-> <<>>, trees |-> [x \in {top.n} |-> [T |-> top.tree.T]]]))
+\* leaves: the innermost grown / attached elements in wire order; their standalone encodings must appear inside the message intact
+EmitTDK(leaves, top) == PrintT(ToJson([k |-> "build", fam |-> "T", nospec |-> TRUE, top |-> top.n, ops |-> top.ops,
+                              observe |-> Flat([i \in DOMAIN leaves |-> << <<"len", leaves[i]>>, <<"marshal", leaves[i]>> >>]) \o Obs4(top.n) \o Obs4(top.n),
+                              kids |-> leaves, trees |-> [x \in {top.n} |-> [T |-> top.tree.T]]]))
 NextT == \E shape \in {"instr-then-actions", "ct-then-nat-ranges", "instr-then-ct-actions", "bucket-then-note", "pktout-then-learnspecs",
                        "instr-actions-after-flowmod", "ct-in-bucket-then-actions"}, tag \in Tags :
             /\ c' = <<shape, tag>>
@@ -147,31 +149,31 @@ NextT == \E shape \in {"instr-then-actions", "ct-then-nat-ranges", "instr-then-c
                    newFM == <<New("m", "NewFlowMod", <<>>), Set("m", "Xid", Xid(tag))>>
                IN
                CASE shape = "instr-actions-after-flowmod" ->
-                      EmitTD(fm(out.ops \o grp.ops \o newFM \o <<New("i", "NewInstrApplyActions", <<>>), Call("m", "AddInstruction", <<Ref("i")>>),
+                      EmitTDK(<<"g1", "o1">>, fm(out.ops \o grp.ops \o newFM \o <<New("i", "NewInstrApplyActions", <<>>), Call("m", "AddInstruction", <<Ref("i")>>),
                                  Call("i", "AddAction", <<Ref("o1"), FALSE>>), Call("i", "AddAction", <<Ref("g1"), TRUE>>)>>))
                  [] shape = "instr-then-actions" ->
-                      EmitTD(fm(out.ops \o newFM \o <<New("i", "NewInstrWriteActions", <<>>), Call("m", "AddInstruction", <<Ref("i")>>),
+                      EmitTDK(<<"n1", "o1">>, fm(out.ops \o newFM \o <<New("i", "NewInstrWriteActions", <<>>), Call("m", "AddInstruction", <<Ref("i")>>),
                                  New("n1", "NewNXActionNote", <<>>), Call("i", "AddAction", <<Ref("n1"), FALSE>>), Set("n1", "Note", V(tag, 21)),
                                  Call("i", "AddAction", <<Ref("o1"), FALSE>>)>>))
                  [] shape = "ct-then-nat-ranges" ->
-                      EmitTD(fm(newFM \o <<New("i", "NewInstrApplyActions", <<>>), New("ct", "NewNXActionConnTrack", <<>>), New("nat", "NewNXActionCTNAT", <<>>),
+                      EmitTDK(<<"nat">>, fm(newFM \o <<New("i", "NewInstrApplyActions", <<>>), New("ct", "NewNXActionConnTrack", <<>>), New("nat", "NewNXActionCTNAT", <<>>),
                                  Call("ct", "AddAction", <<Ref("nat")>>), Call("nat", "SetRangeIPv4Min", <<V(tag, 4)>>), Call("nat", "SetRangeIPv4Max", <<V(tag + 1, 4)>>),
                                  Call("i", "AddAction", <<Ref("ct"), FALSE>>), Call("m", "AddInstruction", <<Ref("i")>>)>>))
                  [] shape = "instr-then-ct-actions" ->
-                      EmitTD(fm(out.ops \o grp.ops \o newFM \o <<New("i", "NewInstrApplyActions", <<>>), New("ct", "NewNXActionConnTrack", <<>>),
+                      EmitTDK(<<"o1", "g1">>, fm(out.ops \o grp.ops \o newFM \o <<New("i", "NewInstrApplyActions", <<>>), New("ct", "NewNXActionConnTrack", <<>>),
                                  Call("i", "AddAction", <<Ref("ct"), FALSE>>), Call("m", "AddInstruction", <<Ref("i")>>),
                                  Call("ct", "AddAction", <<Ref("o1")>>), Call("ct", "AddAction", <<Ref("g1")>>)>>))
                  [] shape = "bucket-then-note" ->
-                      EmitTD(El("m", [T |-> "GroupMod"], <<New("m", "NewGroupMod", <<>>), Set("m", "Xid", Xid(tag)), New("b", "NewBucket", <<>>),
+                      EmitTDK(<<"n1">>, El("m", [T |-> "GroupMod"], <<New("m", "NewGroupMod", <<>>), Set("m", "Xid", Xid(tag)), New("b", "NewBucket", <<>>),
                                  New("n1", "NewNXActionNote", <<>>), Call("b", "AddAction", <<Ref("n1")>>), Set("n1", "Note", V(tag, 30)),
                                  Call("m", "AddBucket", <<Ref("b")>>)>>))
                  [] shape = "ct-in-bucket-then-actions" ->
-                      EmitTD(El("m", [T |-> "GroupMod"], out.ops \o <<New("m", "NewGroupMod", <<>>), Set("m", "Xid", Xid(tag)), New("b", "NewBucket", <<>>),
+                      EmitTDK(<<"o1">>, El("m", [T |-> "GroupMod"], out.ops \o <<New("m", "NewGroupMod", <<>>), Set("m", "Xid", Xid(tag)), New("b", "NewBucket", <<>>),
                                  New("ct", "NewNXActionConnTrack", <<>>), Call("b", "AddAction", <<Ref("ct")>>), Call("ct", "AddAction", <<Ref("o1")>>),
                                  Call("m", "AddBucket", <<Ref("b")>>)>>))
                  [] shape = "pktout-then-learnspecs" ->
                       LET sp == LearnSpecEl("s1", "lv", 24, tag) IN
-                      EmitTD(El("m", [T |-> "PacketOut"], sp.ops \o <<New("m", "NewPacketOut", <<>>), Set("m", "Xid", Xid(tag)), New("l", "NewNXActionLearn", <<>>),
+                      EmitTDK(<<"l">>, El("m", [T |-> "PacketOut"], sp.ops \o <<New("m", "NewPacketOut", <<>>), Set("m", "Xid", Xid(tag)), New("l", "NewNXActionLearn", <<>>),
                                  Call("m", "AddAction", <<Ref("l")>>), Set("l", "LearnSpecs", <<Ref("s1")>>), Call("m", "SetData", <<V(tag, 10)>>)>>))
 Init == c = <<>>
 Next == c = <<>> /\ CASE Family = "A1" -> NextA1 [] Family = "A2" -> NextA2 [] Family = "M1" -> NextM1 [] Family = "M2" -> NextM2
